@@ -82,6 +82,27 @@ func main() {
 		os.Exit(cmdFunc(o, args[0], args[1:]))
 	case "list":
 		os.Exit(cmdList(o))
+	case "mods":
+		w, err := loadAll(o, nil)
+		if err != nil {
+			fmt.Println(err)
+		}
+		re := regexp.MustCompile(args[1])
+		for _, key := range sortedKeys(w.Funcs) {
+			if !re.MatchString(key) {
+				continue
+			}
+			d := w.directMods(key)
+			ms := w.modsOfFunc(key, nil, nil)
+			fmt.Printf("%s\n  direct: emits=%v all=%v heaps=%v\n  callees=%v\n  total: emits=%v all=%v allocs=%v heaps=%d\n", key, d.ms.emits, d.ms.all, sortedKeys(d.ms.heaps), d.callees, ms.emits, ms.all, ms.allocs, len(ms.heaps))
+			for _, ck := range d.callees {
+				cm := w.modsOfFunc(ck, nil, nil)
+				if cm.emits {
+					fmt.Printf("     emitting callee: %s\n", ck)
+				}
+			}
+		}
+		os.Exit(0)
 	default:
 		fmt.Fprintln(os.Stderr, "unknown command", args[0])
 		os.Exit(2)
